@@ -29,6 +29,7 @@ type Env struct {
 	depth  int
 	useMem func(MemRef) // ensure memory is declared in pre/cur
 	ghost  map[string]Term
+	noteWF func(s string, t types.Type) // a value was read from memory: the runtime guarantees it is well formed
 	abs    map[string]*absVar // bound variables of forall/exists that range over absolute array positions
 }
 
@@ -200,7 +201,14 @@ func (e *Env) loadPtr(p Term) Term {
 	if !ok {
 		panic(unsupported("deref of non-pointer " + p.T.String()))
 	}
-	return e.w.loadAt(e.st(), e.useMem, &Addr{base: p.S, elem: pt.Elem()})
+	return e.wfNote(e.w.loadAt(e.st(), e.useMem, &Addr{base: p.S, elem: pt.Elem()}))
+}
+
+func (e *Env) wfNote(t Term) Term {
+	if e.noteWF != nil && t.T != nil {
+		e.noteWF(t.S, t.T)
+	}
+	return t
 }
 
 func (e *Env) tr(x ast.Expr, hint types.Type) Term {
@@ -234,7 +242,7 @@ func (e *Env) tr(x ast.Expr, hint types.Type) Term {
 		case *types.Var:
 			// package-level variable: read its cell
 			ref := w.globalRef(o)
-			return w.loadAt(e.st(), e.useMem, &Addr{base: ref, elem: o.Type()})
+			return e.wfNote(w.loadAt(e.st(), e.useMem, &Addr{base: ref, elem: o.Type()}))
 		}
 		panic(unsupported("unknown identifier " + x.Name))
 	case *ast.BasicLit:
@@ -409,7 +417,7 @@ func (e *Env) field(b Term, name string) Term {
 		}
 		for i := 0; i < st.NumFields(); i++ {
 			if st.Field(i).Name() == name {
-				return w.loadAt(e.st(), e.useMem, &Addr{base: b.S, st: st, path: []int{i}, elem: st.Field(i).Type()})
+				return e.wfNote(w.loadAt(e.st(), e.useMem, &Addr{base: b.S, st: st, path: []int{i}, elem: st.Field(i).Type()}))
 			}
 		}
 	case *types.Struct:
